@@ -533,8 +533,14 @@ func cmdGuards(casesPath, tracePath string) {
 		return 0
 	}
 	sort.SliceStable(order, func(a, b int) bool { return cost(&cases[order[a]]) < cost(&cases[order[b]]) })
+	failed := map[string]int{} // guard -> replayed states that broke the contract so far
 	for _, id := range order {
 		c := cases[id]
+		if failed[c.Guard] >= 12 {
+			// a dozen witnesses are enough: every further state of this guard would cost the same (allocations of
+			// hundreds of MiB, watchdog periods) without telling more
+			continue
+		}
 		dec, inputs := concretise(&c)
 		pred := "reject"
 		if c.Hole {
@@ -567,6 +573,9 @@ func cmdGuards(casesPath, tracePath string) {
 					siteCache[c.Guard] = mutate.AllocSite(func() { mutate.Run(dec, in) })
 				}
 				ev.Site = siteCache[c.Guard]
+			}
+			if r.Outcome == "panic" || r.Outcome == "timeout" || len(r.BadAcc) > 0 || overBudget(r.AllocKiB, len(in)) {
+				failed[c.Guard]++
 			}
 			if (r.Outcome == "panic" || r.Outcome == "timeout" || len(r.BadAcc) > 0 || overBudget(r.AllocKiB, len(in))) && len(in) <= 1<<20 {
 				ev.Data = base64.StdEncoding.EncodeToString(in)
